@@ -597,6 +597,14 @@ class FunctionNormalizer:
                 self._mark()
                 i = max(i - 1, 0)
                 continue
+            if t and self._can_inline_pure_multi(t, st, nxt, fn):
+                # t = <pure expression> ; S(t, …, t)  ->  S(E, …, E)   (a hoisted common sub-expression)
+                for use in _loads(nxt, t):
+                    _ReplaceNode(use, copy.deepcopy(st.value)).visit(nxt)
+                del body[i]
+                self._mark()
+                i = max(i - 1, 0)
+                continue
             if t and self._can_inline(t, st, nxt, fn):
                 use = self._single_use(nxt, t)
                 _ReplaceNode(use, st.value).visit(nxt)
@@ -606,6 +614,34 @@ class FunctionNormalizer:
                 continue
             i += 1
         return body
+
+    def _can_inline_pure_multi(self, t: str, st: ast.stmt, nxt: ast.stmt, fn) -> bool:
+        if self._is_param(fn, t) or self.n_stores[t] != 1 or self.n_loads[t] < 2:
+            return False
+        v = st.value
+        if any(isinstance(n, (ast.Call, ast.Await, ast.Yield, ast.YieldFrom, ast.NamedExpr, ast.Lambda, ast.ListComp, ast.SetComp, ast.DictComp,
+                              ast.GeneratorExp, ast.IfExp, ast.BoolOp)) for n in ast.walk(v)):
+            return False
+        if not isinstance(nxt, (ast.Assign, ast.AugAssign, ast.Expr, ast.Return)):
+            return False
+        uses = _loads(nxt, t)
+        if len(uses) != self.n_loads[t]:
+            return False  # used elsewhere too
+        for u in uses:
+            path = _path_to(nxt, u) or []
+            if any(isinstance(p, (ast.Lambda, ast.FunctionDef, ast.GeneratorExp, ast.ListComp, ast.SetComp, ast.DictComp)) for p in path):
+                return False
+        # the statement must not rebind / store into anything the expression reads
+        free = {n.id for n in ast.walk(v) if isinstance(n, ast.Name)}
+        if isinstance(nxt, (ast.Assign, ast.AugAssign)):
+            tg = nxt.targets if isinstance(nxt, ast.Assign) else [nxt.target]
+            for x in tg:
+                b = x
+                while isinstance(b, (ast.Subscript, ast.Attribute)):
+                    b = b.value
+                if isinstance(b, ast.Name) and b.id in free and isinstance(nxt, ast.AugAssign):
+                    return False
+        return True
 
     def _single_use(self, st: ast.stmt, name: str) -> Optional[ast.Name]:
         uses = _loads(st, name)
@@ -718,14 +754,95 @@ class _ReplaceNode(ast.NodeTransformer):
 
 
 # ------------------------------------------------------------------------------------------------ expression-level
+def _format_to_fstring(n: ast.Call) -> Optional[ast.JoinedStr]:
+    """'{}.{}'.format(a, b) / '{0!r}'.format(a)  ->  f'{a}.{b}' / f'{a!r}'  (plain positional fields only)."""
+    if not (isinstance(n.func, ast.Attribute) and n.func.attr == "format" and isinstance(n.func.value, ast.Constant)
+            and isinstance(n.func.value.value, str) and not n.keywords and not any(isinstance(a, ast.Starred) for a in n.args)):
+        return None
+    import string
+    parts: List[ast.expr] = []
+    auto = 0
+    try:
+        for lit, field, spec, conv in string.Formatter().parse(n.func.value.value):
+            if lit:
+                parts.append(ast.Constant(value=lit))
+            if field is None:
+                continue
+            if spec:
+                return None
+            if field == "":
+                idx = auto
+                auto += 1
+            elif field.isdigit():
+                idx = int(field)
+            else:
+                return None
+            if idx >= len(n.args):
+                return None
+            parts.append(ast.FormattedValue(value=n.args[idx], conversion=ord(conv) if conv else -1, format_spec=None))
+    except ValueError:
+        return None
+    # merge adjacent constants
+    merged: List[ast.expr] = []
+    for p in parts:
+        if merged and isinstance(p, ast.Constant) and isinstance(merged[-1], ast.Constant):
+            merged[-1] = ast.Constant(value=merged[-1].value + p.value)
+        else:
+            merged.append(p)
+    return ast.JoinedStr(values=merged)
+
+
 class _Consumers(ast.NodeTransformer):
-    """f([listcomp]) -> f(genexp) for consuming builtins; list(gen)/set(gen) -> comprehension displays."""
+    """f([listcomp]) -> f(genexp) for consuming builtins; list(gen)/set(gen) -> comprehension displays;
+    str.format with plain fields -> f-string; {repr(x)} -> {x!r}; isinstance(x, A) or isinstance(x, B) -> isinstance(x, (A, B));
+    `a if a else b` -> `a or b`."""
+
+    def visit_FormattedValue(self, n):
+        self.generic_visit(n)
+        v = n.value
+        if n.conversion == -1 and isinstance(v, ast.Call) and isinstance(v.func, ast.Name) and v.func.id in ("repr", "str") and len(v.args) == 1 and not v.keywords \
+                and n.format_spec is None:
+            return _loc(ast.FormattedValue(value=v.args[0], conversion=ord("r") if v.func.id == "repr" else ord("s"), format_spec=None), n)
+        return n
+
+    def visit_BoolOp(self, n):
+        self.generic_visit(n)
+        if isinstance(n.op, ast.Or):
+            out: List[ast.expr] = []
+            for v in n.values:
+                prev = out[-1] if out else None
+                if (prev is not None and isinstance(v, ast.Call) and isinstance(prev, ast.Call) and isinstance(v.func, ast.Name) and v.func.id == "isinstance"
+                        and isinstance(prev.func, ast.Name) and prev.func.id == "isinstance" and len(v.args) == 2 and len(prev.args) == 2
+                        and not v.keywords and not prev.keywords and norm(v.args[0]) == norm(prev.args[0])
+                        and not any(isinstance(x, ast.Call) for x in ast.walk(v.args[0]))):
+                    def types(e):
+                        return list(e.elts) if isinstance(e, ast.Tuple) else [e]
+                    tup = _loc(ast.Tuple(elts=types(prev.args[1]) + types(v.args[1]), ctx=ast.Load()), prev)
+                    out[-1] = _loc(ast.Call(func=prev.func, args=[prev.args[0], tup], keywords=[]), prev)
+                else:
+                    out.append(v)
+            if len(out) == 1:
+                return out[0]
+            n.values = out
+        return n
+
+    def visit_IfExp(self, n):
+        self.generic_visit(n)
+        pure = not any(isinstance(x, (ast.Call, ast.Await, ast.NamedExpr)) for x in ast.walk(n.test))
+        if pure and norm(n.test) == norm(n.body):
+            return _loc(ast.BoolOp(op=ast.Or(), values=[n.body, n.orelse]), n)   # a if a else b
+        if pure and isinstance(n.test, ast.UnaryOp) and isinstance(n.test.op, ast.Not) and norm(n.test.operand) == norm(n.orelse):
+            return _loc(ast.BoolOp(op=ast.Or(), values=[n.orelse, n.body]), n)   # b if not a else a
+        return n
 
     def visit_Call(self, n):
         self.generic_visit(n)
         name = n.func.id if isinstance(n.func, ast.Name) else (n.func.attr if isinstance(n.func, ast.Attribute) else None)
         if norm(n.func) in ("cast", "typing.cast") and len(n.args) == 2 and not n.keywords:
             return n.args[1]  # typing.cast is the identity at run time
+        fs = _format_to_fstring(n)
+        if fs is not None:
+            return self.generic_visit(_loc(fs, n)) if False else _loc(fs, n)
         if len(n.args) == 1 and not n.keywords and isinstance(n.func, ast.Name):
             a = n.args[0]
             if name == "list" and isinstance(a, (ast.GeneratorExp, ast.ListComp)):
@@ -910,6 +1027,9 @@ class Normalizer:
                 if fi is not None and not isinstance(fi.node, ast.Lambda) and fi.cls is None and fi.parent is None:
                     a = fi.node.args
                     ps = None if (a.vararg or a.posonlyargs) else [x.arg for x in a.args]
+            if ps and not n.args and n.keywords and n.keywords[0].arg == ps[0] and not any(k.arg is None for k in n.keywords):
+                n.args = [n.keywords[0].value]   # the first parameter is written positionally
+                n.keywords = n.keywords[1:]
             if not ps or len(n.args) < 2 or any(isinstance(a, ast.Starred) for a in n.args) or len(n.args) > len(ps):
                 continue
             given = {k.arg for k in n.keywords}
@@ -985,6 +1105,28 @@ class Normalizer:
             for _ in range(4):
                 if not self._inline_in_function(fn):
                     break
+        # module-level tables that mention a single-expression private helper by name hold, in effect, that lambda
+        inl = _ExprInliner(self)
+
+        class Refs(ast.NodeTransformer):
+            def visit_Call(self_, n):
+                n.args = [self_.visit(a) for a in n.args]
+                n.keywords = [self_.visit(k) for k in n.keywords]
+                if not isinstance(n.func, ast.Name):
+                    n.func = self_.visit(n.func)
+                return n
+
+            def visit_Name(self_, n):
+                if isinstance(n.ctx, ast.Load):
+                    lam = inl.helper_lambda(n.id)
+                    if lam is not None:
+                        self.stats["helper_sites_inlined"] += 1
+                        return _loc_all(_loc(lam, n), n)
+                return n
+
+        for i, st in enumerate(tree.body):
+            if isinstance(st, (ast.Assign, ast.AnnAssign, ast.Expr)):
+                tree.body[i] = Refs().visit(st)
 
     def _inline_in_function(self, fn) -> bool:
         # statement positions first
@@ -1145,6 +1287,21 @@ class _ExprInliner(ast.NodeTransformer):
     def __init__(self, owner: Normalizer):
         self.owner = owner
         self.count = 0
+
+    def helper_lambda(self, name: str) -> Optional[ast.Lambda]:
+        """`lambda params: expr` for a module-level single-expression private helper (used where it is passed as a value)."""
+        fi = self.owner.helpers.get(name)
+        if fi is None or fi.cls is not None:
+            return None
+        node = self.owner.helper_nodes[name]
+        doc, hb = _docstring_split(node.body)
+        a = node.args
+        if not (len(hb) == 1 and isinstance(hb[0], ast.Return) and hb[0].value is not None) or a.kwonlyargs or a.defaults or a.vararg or a.kwarg:
+            return None
+        args = copy.deepcopy(a)
+        for x in args.args:
+            x.annotation = None
+        return ast.Lambda(args=args, body=copy.deepcopy(hb[0].value))
 
     def visit_Call(self, n):
         self.generic_visit(n)
